@@ -478,6 +478,31 @@ func genC13(r *world.Rng, w *world.World, big bool) {
 	}
 	t.Chunks = chunks(r)
 	t.EOFWith = r.Bool(0.3)
+	if r.Bool(0.12) {
+		// push the text across the 4096-byte buffer boundary of bufio: leading comment lines of a
+		// random total length, so that the boundary falls somewhere inside the constraints
+		cp := "c "
+		if t.Entry == "solver.ParseOPB" {
+			cp = "* "
+		}
+		total := r.Range(3900, 4100) - r.Intn(len(t.Text)+1)
+		if r.Bool(0.2) {
+			total += 4096
+		}
+		var pad strings.Builder
+		for total > 0 {
+			n := r.Range(40, 900)
+			if n > total {
+				n = total
+			}
+			pad.WriteString(cp + strings.Repeat("x", n) + "\n")
+			total -= n + len(cp) + 1
+		}
+		t.Text = pad.String() + t.Text
+		if r.Bool(0.5) {
+			t.Chunks = []int{4096}
+		}
+	}
 	w.Tasks = []world.TaskSpec{t}
 	w.Sched = world.Sched{Strategy: "serial"}
 }
